@@ -140,6 +140,16 @@ theorem isField_ext (refsOf : Var → List Name) {E E' : Ds} (h : Extends E E') 
     exact ⟨u, by rw [hv]; exact List.mem_append.mpr (Or.inl hu), hur⟩
   · exact absurd hr (hnew w hw hold)
 
+/-- `IsField` only looks at the variables, which an append preserves whatever happens to the dimensions. -/
+theorem isField_grown (refsOf : Var → List Name) {E E' : Ds} (h : ExtendsGrown E E') (v : Var)
+    (hf : IsField refsOf E v) (hnew : ∀ w ∈ E'.vars, w ∉ E.vars → v.name ∉ refsOf w) : IsField refsOf E' v := by
+  intro w hw hr
+  by_cases hold : w ∈ E.vars
+  · obtain ⟨u, hu, hur⟩ := hf w hold hr
+    obtain ⟨nv, hv, _⟩ := h.vars
+    exact ⟨u, by rw [hv]; exact List.mem_append.mpr (Or.inl hu), hur⟩
+  · exact absurd hr (hnew w hw hold)
+
 /-! ## The refusal predicate against the documentation -/
 
 theorem refuse_new_iff (nc4 : Bool) (fileFT : Option String) (S : List FieldReq) :
